@@ -16,6 +16,7 @@ type tagIfchangedNode struct {
 type tagIfchangedState struct {
 	lastValues  []*Value
 	lastContent []byte
+	executed    bool // the content form was executed before (lastContent is what it rendered then)
 }
 
 func (node *tagIfchangedNode) Execute(ctx *ExecutionContext, writer TemplateWriter) *Error {
@@ -35,10 +36,12 @@ func (node *tagIfchangedNode) Execute(ctx *ExecutionContext, writer TemplateWrit
 		}
 
 		bufBytes := buf.Bytes()
-		if !bytes.Equal(state.lastContent, bufBytes) {
-			// Rendered content changed, output it
+		if !state.executed || !bytes.Equal(state.lastContent, bufBytes) {
+			// Rendered content changed (or there is no previous execution to compare
+			// with: an empty body is not "unchanged" the first time), output it
 			writer.Write(bufBytes)
 			state.lastContent = bufBytes
+			state.executed = true
 		} else if node.elseWrapper != nil {
 			// Rendered content did not change: the else-part (like in the form with
 			// watched values)
